@@ -105,9 +105,18 @@ def run_case(case: dict) -> dict:
         rel = rng.random() < 0.4
         sim = Simulator(model, y0=y0)
         if rng.random() < 0.3:
-            sim.simulate(round(rng.uniform(0.25, 4.0), 3), steps=rng.randint(1, 4))  # the search continues an earlier time course
+            # the search continues an earlier time course (also one that ended on a round time like 100 or 200)
+            sim.simulate(rng.choice([round(rng.uniform(0.25, 4.0), 3), 100.0, 200.0, 50.0]), steps=rng.randint(1, 4))
             counters["stable:after_a_time_course"] = 1
         sim.simulate_to_steady_state(tolerance=tol, rel_norm=rel)
+        params_now = dict(net.params)
+        if rng.random() < 0.25 and not isinstance(sim.get_result().value, Exception):
+            # a second search on the same simulator after a parameter change: the new steady state, not the old one
+            kname = rng.choice(sorted(net.params))
+            params_now[kname] = round(net.params[kname] * rng.choice([0.5, 2.0, 3.0]), 4)
+            sim.update_parameter(kname, params_now[kname])
+            sim.simulate_to_steady_state(tolerance=tol, rel_norm=rel)
+            counters["stable:second_search_after_parameter_change"] = 1
         res = sim.get_result().value
         counters[f"y0:{mode}"] = 1
         counters[f"rel_norm:{rel}"] = 1
@@ -118,9 +127,9 @@ def run_case(case: dict) -> dict:
             counters["stable:success_compared"] = 1
             y = res.get_variables(include_derived_variables=False, include_readouts=False, include_surrogate_variables=False).iloc[-1].to_dict()
             fx = res.fluxes.iloc[-1].to_dict()
-            bad = check_success(net, net.params, y, fx, tol, rel)
+            bad = check_success(net, params_now, y, fx, tol, rel)
             if bad:
-                viols.append(core.viol(bad.pop("what"), None, net=net.to_json(), y0=y0, tolerance=tol, rel_norm=rel, **bad))
+                viols.append(core.viol(bad.pop("what"), None, net=net.to_json(), y0=y0, tolerance=tol, rel_norm=rel, parameters=params_now, **bad))
         sample = {"net": net.to_json(), "y0": y0, "tolerance": tol, "rel_norm": rel}
     elif case["kind"] == "nosteady":
         net, kind = nosteady_net(rng)
@@ -130,7 +139,7 @@ def run_case(case: dict) -> dict:
         sim = Simulator(model)
         if rng.random() < 0.4:
             # a successful time course first: the failed search must still be what the result reports
-            sim.simulate(round(rng.uniform(0.25, 4.0), 3), steps=rng.randint(1, 4))
+            sim.simulate(rng.choice([round(rng.uniform(0.25, 4.0), 3), 100.0, 200.0]), steps=rng.randint(1, 4))
             counters["nosteady:after_a_time_course"] = 1
         sim.simulate_to_steady_state(tolerance=tol, rel_norm=rel)
         res = sim.get_result().value
